@@ -303,6 +303,7 @@ def run(facts, rep, tier, file_filter=None, pid="C02"):
         optimizer_keeps_transfers(facts, rep)
         party_indices(facts, rep)
         knowledge_typing(facts, rep)
+        party_arithmetic(facts, rep)
         local_status_is_disjunctive(facts, rep)
         # every designated output party receives the result: the party tested for membership is the receiver (shared with C03.R)
         from . import C03
@@ -621,3 +622,133 @@ def local_status_is_disjunctive(facts, rep):
            "dependency statuses are combined disjunctively (%s)" % (disj or "no recognised combinator: not judged") if not conj else
            "dependency statuses are combined with a conjunction (%s): a local operation mixing a 3-out-of-3 product with a "
            "replicated value is treated as replicated and never reshared" % conj, b.loc())
+
+
+# ----------------------------------------------------------------------------- C02.D
+# direction conventions stated by the property's own mechanism list: function -> (relation, reason)
+DIRECTION = {
+    "mpc::mpc_compiler::generate_prf_key_triple": ("to-previous", "key i is generated by party i and sent to party i-1"),
+    "mpc::resharing::reshare": ("to-previous", "party i masks its share and sends it to party i-1"),
+    "mpc::mpc_compiler::share_node": ("to-previous", "input share i goes from party i to party i-1 (party j holds shares j and j+1)"),
+    "mpc::mpc_compiler::reveal_output": ("from-previous", "the share the first output party lacks is held and sent by its predecessor"),
+}
+
+
+def party_arithmetic(facts, rep):
+    from .. import intexpr as IE
+    rep.rule("C02.D", "party arithmetic of Send annotations whose sender and receiver are functions of one index variable: for the "
+                      "three values of that variable both parties are in {0,1,2} and differ; in the functions for which the "
+                      "property states a direction (key triple, resharing, input sharing: i -> i-1; reveal: p-1 -> p) the "
+                      "relation holds for every value, and a share picked by a variable index is the sender's own share")
+    n = 0
+    for name, b in mpc_bodies(facts):
+        if "/mpc/" not in b.file:
+            continue
+        fl = None
+        k = 0
+        for bb, j, place, rv in b.assigns():
+            if not (rv[0] == "agg" and rv[1].get("adt") == "graphs::NodeAnnotation" and rv[1].get("vn") == "Send"):
+                continue
+            fl = fl or Flow(facts, b, EXTRA)
+            sa, ra = IE.build(fl, b, rv[2][0]), IE.build(fl, b, rv[2][1])
+            vs_ = IE.variables(sa) | IE.variables(ra)
+            if len(vs_) != 1 or IE.unknown(sa) or IE.unknown(ra):
+                k += 1
+                continue
+            v = list(vs_)[0]
+            pairs = [(IE.evaluate(sa, {v: i}), IE.evaluate(ra, {v: i})) for i in range(3)]
+            if any(x is None or y is None for x, y in pairs):
+                k += 1
+                continue
+            n += 1
+            valid = all(0 <= x <= 2 and 0 <= y <= 2 and x != y for x, y in pairs)
+            rep.ob("C02.D", "%s|send#%d|valid" % (name, k), valid,
+                   "(sender, receiver) for index 0,1,2 = %s" % pairs if valid else
+                   "for some index value the Send parties %s are not two distinct members of {0,1,2}" % pairs, b.loc(bb))
+            root = b.root or name
+            d = DIRECTION.get(name) or DIRECTION.get(root)
+            if d and valid:
+                if d[0] == "to-previous":
+                    ok = all(y == (x - 1) % 3 for x, y in pairs) and sorted(x for x, _ in pairs) == [0, 1, 2]
+                else:
+                    ok = all(x == (y - 1) % 3 for x, y in pairs) and sorted(y for _, y in pairs) == [0, 1, 2]
+                rep.ob("C02.D", "%s|send#%d|direction" % (name, k), ok,
+                       "%s: %s" % (d[1], pairs) if ok else
+                       "expected %s, but the Send parties are %s: the value goes to a party that cannot use it while the one that "
+                       "needs it never receives it (a global evaluator cannot see this)" % (d[1], pairs), b.loc(bb))
+                # the share selected by a variable index is the sender's own
+                sent_nops = [o[1] for bb2, t2 in b.calls() if callee_name(t2) == "graphs::Node::add_annotation"
+                             and any(o2[0] == "agg" and o2[1] == bb and o2[2] == j for o2 in fl.origins(t2["args"][1], (bb2, None)))
+                             for o in fl.origins(t2["args"][0], (bb2, None)) if o[0] == "call" and o[2] in NOPS]
+                for nb in sent_nops:
+                    t3 = b.term(nb)
+                    pay = [a for a in t3["args"] if a[0] != "k" and "graphs::Node" in b.local_ty(a[1][0])]
+                    if not pay:
+                        continue
+                    cone = _additive_cone(b, fl, pay[-1], (nb, None))
+                    for ib in cone:
+                        ti = b.term(ib)
+                        if (callee_name(ti) or "").endswith("::index") and len(ti["args"]) == 2 and ti["args"][1][0] != "k":
+                            ia = IE.build(fl, b, ti["args"][1])
+                            if IE.variables(ia) == {v} and not IE.unknown(ia):
+                                same = all(IE.evaluate(ia, {v: i}) == pairs[i][0] for i in range(3))
+                                rep.ob("C02.D", "%s|send#%d|own-share@%d" % (name, k, _ord_index(b, ib)), same,
+                                       "the share picked by index is the sender's own share for every index value" if same else
+                                       "the sender sends share %s while being party %s: it forwards a share it is not the designated "
+                                       "sender of" % ([IE.evaluate(ia, {v: i}) for i in range(3)], [p_[0] for p_ in pairs]), b.loc(ib))
+            k += 1
+    rep.analysed["send_sites_with_evaluated_party_arithmetic"] = n
+    rep.floor("C02.D", "Send sites whose parties are a function of one index variable", n, 5)
+
+
+def _ord_index(b, bb):
+    k = 0
+    for x, t in b.calls():
+        if x == bb:
+            return k
+        if (callee_name(t) or "").endswith("::index"):
+            k += 1
+    return k
+
+
+def _additive_cone(b, fl, op, at, depth=0, seen=None):
+    """call blocks in the additive closure (add/subtract/sum/nop + value-preserving steps) of a payload operand"""
+    seen = seen if seen is not None else set()
+    ADD = ("graphs::Node::add", "graphs::Graph::add", "graphs::Node::subtract", "graphs::Graph::subtract",
+           "mpc::mpc_compiler::recursively_sum_shares")
+    if op[0] == "k" or depth > 12:
+        return seen
+    l = op[1][0]
+    for di in fl.reaching_defs(l, at):
+        _, bb, j = fl.defs[di]
+        if bb < 0 or (bb, j) in seen:
+            continue
+        seen.add((bb, j))
+        if j is None:
+            t = b.term(bb)
+            cn = callee_name(t) or ""
+            seen.add(bb)
+            from ..flow import transparent_args
+            ta = transparent_args(cn) or (list(range(len(t["args"]))) if cn in ADD else None)
+            if t["f"].get("def") in ("std::clone::Clone::clone", "std::ops::Deref::deref"):
+                ta = [0]
+            if ta:
+                for i in ta:
+                    if i < len(t["args"]):
+                        _additive_cone(b, fl, t["args"][i], (bb, None), depth + 1, seen)
+            if cn == "std::boxed::box_assume_init_into_vec_unsafe":
+                root = fl.root_of(t["args"][0][1][0])
+                for (wb, wj, place, rv) in fl.ptr_writes.get(root, ()):
+                    if rv[0] == "agg":
+                        for o in rv[2]:
+                            _additive_cone(b, fl, o, (wb, wj), depth + 1, seen)
+        else:
+            rv = b.stmts(bb)[j][2]
+            if rv[0] == "use":
+                _additive_cone(b, fl, rv[1], (bb, j), depth + 1, seen)
+            elif rv[0] in ("ref", "raw"):
+                _additive_cone(b, fl, ["c", [rv[2][0]]], (bb, j), depth + 1, seen)
+            elif rv[0] == "agg":
+                for o in rv[2]:
+                    _additive_cone(b, fl, o, (bb, j), depth + 1, seen)
+    return {x for x in seen if isinstance(x, int)}
